@@ -1,6 +1,7 @@
 package props
 
 import (
+	"runtime"
 	"encoding/json"
 	"fmt"
 	"strings"
@@ -54,6 +55,12 @@ func init() {
 					}
 				}
 			}
+			for _, w := range []int{1, 4} {
+				for rep := 0; rep < tierPick(tier, 1, 6); rep++ {
+					bs = append(bs, core.Batch{Name: fmt.Sprintf("multishutdown-w%d-r%d", w, rep), TimeoutS: 300,
+						Params: core.Params(c03Params{Kind: "multishutdown", Workers: w, Cycles: tierPick(tier, 150, 500)})})
+				}
+			}
 			for _, g := range []string{"G1", "G2", "G3-token", "G3-reset", "G3-event", "G3-reply", "G4", "G5", "G6", "control"} {
 				for _, w := range []int{1, 3, 8} {
 					bs = append(bs, core.Batch{Name: fmt.Sprintf("directed-%s-w%d", g, w), TimeoutS: 300,
@@ -71,6 +78,10 @@ func c03Run(c *core.Ctx, b core.Batch) {
 	var p c03Params
 	json.Unmarshal(b.Params, &p)
 	rigInstall()
+	if p.Kind == "multishutdown" {
+		c03MultiShutdown(c, p)
+		return
+	}
 	if p.Kind == "stress" {
 		c03Stress(c, p)
 	} else {
@@ -89,6 +100,8 @@ type c03Svc struct {
 	execs []concExec
 	n     int64
 	block chan struct{} // when non-nil, callbacks of group "blk" wait on it
+	// shutdownCallers > 1: that many goroutines call Shutdown at the same instant
+	shutdownCallers int
 }
 
 func newC03Svc(c *core.Ctx, workers int) *c03Svc {
@@ -209,13 +222,65 @@ func (s *c03Svc) shutdownAndCheck(what interface{}, workers int, producersDone f
 	conn := s.rig.C
 	ret := make(chan error, 1)
 	callSeq := mon.Seq()
-	go func() {
-		var err error
-		if pn, stack := tryStack(func() { err = sv.Shutdown() }); pn != nil {
-			c.Violation("C03/panic:Shutdown:"+short(fmt.Sprint(pn), 80), fmt.Sprintf("Shutdown panicked: %v", pn), map[string]interface{}{"stack": short(stack, 2500), "scenario": what})
+	// one or several goroutines call Shutdown at the same instant (spin barrier):
+	// exactly one of them stops the service, the others are refused as not started
+	callers := s.shutdownCallers
+	if callers < 1 {
+		callers = 1
+	}
+	var nilSeq int64 // sequence number at which the successful Shutdown returned
+	{
+		type sdRes struct {
+			err error
+			seq int64
 		}
-		ret <- err
-	}()
+		results := make(chan sdRes, callers)
+		var ready, goFlag int32
+		for i := 0; i < callers; i++ {
+			go func() {
+				atomic.AddInt32(&ready, 1)
+				for atomic.LoadInt32(&goFlag) == 0 {
+					runtime.Gosched()
+				}
+				var err error
+				if pn, stack := tryStack(func() { err = sv.Shutdown() }); pn != nil {
+					err = fmt.Errorf("panic: %v", pn)
+					c.Violation("C03/panic:Shutdown:"+short(fmt.Sprint(pn), 80), fmt.Sprintf("Shutdown (one of %d concurrent calls) panicked: %v", callers, pn), map[string]interface{}{"stack": short(stack, 2500), "scenario": what, "concurrent_shutdown_calls": callers})
+				}
+				results <- sdRes{err, mon.Seq()}
+			}()
+		}
+		for atomic.LoadInt32(&ready) < int32(callers) {
+			runtime.Gosched()
+		}
+		atomic.StoreInt32(&goFlag, 1)
+		go func() {
+			nils := 0
+			var firstErr error
+			for i := 0; i < callers; i++ {
+				r := <-results
+				if r.err == nil {
+					nils++
+					if nilSeq == 0 || r.seq < nilSeq {
+						nilSeq = r.seq
+					}
+				} else if firstErr == nil {
+					firstErr = r.err
+				}
+			}
+			if callers > 1 {
+				c.Obs("concurrent_shutdown_cycles", 1)
+				if nils != 1 {
+					c.Violation("C03/shutdown-not-single", fmt.Sprintf("%d concurrent Shutdown calls on one started service: %d returned nil, want exactly 1 (the others refused as not started)", callers, nils), map[string]interface{}{"scenario": what, "concurrent_shutdown_calls": callers})
+				}
+			}
+			if nils > 0 {
+				ret <- nil
+			} else {
+				ret <- firstErr
+			}
+		}()
+	}
 	var R int64
 	deadline := time.Now().Add(30 * time.Second)
 	stable := 0
@@ -224,6 +289,9 @@ wait:
 		select {
 		case err := <-ret:
 			R = mon.Seq()
+			if nilSeq != 0 && callers > 1 {
+				R = nilSeq
+			}
 			if err != nil {
 				c.Violation("C03/shutdown-error", "Shutdown of a started service returned: "+err.Error(), what)
 			}
@@ -407,7 +475,13 @@ func c03Stress(c *core.Ctx, p c03Params) {
 		time.Sleep(time.Duration(200+r.Intn(3000)) * time.Microsecond)
 		what := map[string]interface{}{"scenario": "stress", "cycle": cy, "workers": p.Workers}
 		close(stop)
+		s.shutdownCallers = 1
+		if cy%3 == 2 {
+			s.shutdownCallers = 2 + cy%3
+			what["concurrent_shutdown_calls"] = s.shutdownCallers
+		}
 		ok := s.shutdownAndCheck(what, p.Workers, func() bool { return atomic.LoadInt32(&running) == 0 })
+		s.shutdownCallers = 1
 		wg.Wait()
 		c.Obs("api_calls", atomic.LoadInt64(&calls))
 		c.Distinct(fmt.Sprintf("%s/%d", c.Batch.Name, cy))
@@ -420,6 +494,32 @@ func c03Stress(c *core.Ctx, p c03Params) {
 	}
 	s.shutdownAndCheck("final", p.Workers, nil)
 	c.Sample(map[string]interface{}{"scenario": "stress", "workers": p.Workers, "cycles": p.Cycles, "producers": 8, "calls": c03Calls})
+}
+
+// c03MultiShutdown: many start/stop cycles in which several goroutines call
+// Shutdown at the same instant (a signal handler racing a supervisor, a user
+// Shutdown racing the closed-connection handler) while a few callbacks are in flight.
+func c03MultiShutdown(c *core.Ctx, p c03Params) {
+	s := newC03Svc(c, p.Workers)
+	if err := s.rig.start(); err != nil {
+		c.Inconclusive("start: " + err.Error())
+		return
+	}
+	for cy := 0; cy < p.Cycles; cy++ {
+		for k := 0; k < 4; k++ {
+			s.randomCall(c.Rand, 0, cy*4+k)
+		}
+		s.shutdownCallers = 2 + cy%5
+		what := map[string]interface{}{"scenario": "concurrent Shutdown calls", "cycle": cy, "workers": p.Workers, "concurrent_shutdown_calls": s.shutdownCallers}
+		ok := s.shutdownAndCheck(what, p.Workers, nil)
+		s.shutdownCallers = 1
+		c.Distinct(fmt.Sprintf("%s/%d", c.Batch.Name, cy))
+		if !ok || !s.restartCheck(what) {
+			return
+		}
+	}
+	s.shutdownAndCheck("final", p.Workers, nil)
+	c.Sample(map[string]interface{}{"scenario": "concurrent Shutdown calls", "workers": p.Workers, "cycles": p.Cycles})
 }
 
 func c03Directed(c *core.Ctx, p c03Params) {
